@@ -103,6 +103,9 @@ PROPS.update({
             {"test": "TestVerifC04Live", "variant": "plain", "chunk": 0, "crash_is_violation": True, "quick": {"checks": 12, "shards": 8}, "thorough": {"checks": 300, "shards": 12}, "replay_marker": "network"},
         ],
         assumptions=E2_ASSUME + ["E3: interleavings and partial-write boundaries are the OS's choice; a stall is reported only after 30 s without a single byte of progress; a failing scenario is re-run 10 times to state its reproduction rate"]),
+    "C17": _e2("TestVerifC17", "Generated adders, bursts, Close position and schedules over the real ShardQueue (its atomics, spin locks and worker task are schedule points); exactly-once and 'flushed without a further Add' are judged at exact quiescence.",
+               "scenario = 1-4 shards x 1-4 adder goroutines x 1-5 Add calls of 1-3 getters x optional Close after k Adds returned x 0-2 Adds after Close returned; non-trivial = at least two worker tasks ran, or an Add from one of several adders raced the first worker; distinct = scenario + event sequence + number of steps",
+               quick=4000, thorough=100000, pkg="mux"),
 })
 
 ENGINES = [
@@ -114,5 +117,5 @@ ENGINES = [
 # properties not claimed yet (kept current while the framework is being built)
 NOT_APPLICABLE = [
     {"property_id": p, "reason": "check under construction in this session; not claimed until it has been run clean on the unchanged tree"}
-    for p in ["C04", "C11", "C13", "C14", "C15", "C16", "C17", "C18", "C19"]
+    for p in [ "C11", "C13", "C14", "C15", "C16", "C18", "C19"]
 ]
